@@ -27,8 +27,9 @@ type Case struct {
 }
 
 const (
-	outMarker = "OUTSIDE-MARKER-0123456789-outside-of-the-view-root-OUTSIDE-MARKER"
-	inMarker  = "INSIDE-marker-abcdefghijklmnopqrstuvwxyz-inside-the-view-INSIDE"
+	outMarker  = "OUTSIDE-MARKER-0123456789-outside-of-the-view-root-OUTSIDE-MARKER"
+	inMarker   = "INSIDE-marker-abcdefghijklmnopqrstuvwxyz-inside-the-view-INSIDE"
+	provMarker = "PROVISIONED-content-copied-by-the-parent-into-the-view-0123456789-PROVISIONED"
 )
 
 // MemKinds and DiskKinds are the view kinds under test. The list after the colon is the
@@ -112,6 +113,26 @@ func (f *fixture) populate() (err error) {
 		dir += seg + "/"
 	}
 	if err = w.WriteFile(dir+"in/in", []byte(inMarker), 0644); err != nil {
+		return err
+	}
+	// provisioned copies: the parent copies a file and a directory from OUTSIDE the view into it;
+	// a copy that shares storage with its source (shared byte slice, hard link) would let the view
+	// rewrite the parent's original through its own copy
+	last := strings.Join(f.chain[:len(f.chain)-1], "/")
+	if last != "" {
+		last += "/"
+	}
+	// (their content is not the outside marker: reading one's own copy is no leak)
+	if err = w.WriteFile(last+"prov", []byte(provMarker), 0644); err != nil {
+		return err
+	}
+	if err = w.WriteFile(last+"provd/p", []byte(provMarker), 0644); err != nil {
+		return err
+	}
+	if err = f.p.Copy(last+"prov", dir+"in/cp"); err != nil {
+		return err
+	}
+	if err = f.p.CopyDirectory(last+"provd", dir+"in/cpd"); err != nil {
 		return err
 	}
 	var prob string
@@ -475,6 +496,9 @@ func PathsSib(depth int, sib string) []string {
 	rec(nil, depth, false)
 	return out
 }
+
+// ProvisionedPaths are the copies the parent placed inside the view (see populate).
+var ProvisionedPaths = []string{"in/cp", "in/cpd/p", "in/cpd", "/in/./cp"}
 
 // Paths enumerates all paths of 1..depth segments over the alphabet, with and without a leading '/'.
 func Paths(depth int) []string {
